@@ -110,9 +110,12 @@ where
                 // let repeat_till accumulated into () (unit)
                 .map(|((), _)| ())
                 .take()
-                .map(|x: &str| Cow::Borrowed(x.trim_start()))
-                // characters like U+3000 are not separators but are trimmed
-                .verify(|x: &Cow<'i, str>| !x.is_empty()),
+                // only the single space taken by the first opt(" ") is dropped: other
+                // white space (U+00A0, U+3000, ...) is not a separator, and trimming it
+                // would turn ` \u{a0}*A` into the account `*A`, printed as a cleared `A`.
+                .map(|x: &str| Cow::Borrowed(x.trim_start_matches(' ')))
+                // a name made only of white space (U+3000, ...) is not an account.
+                .verify(|x: &Cow<'i, str>| !x.trim().is_empty()),
             ),
             space0,
         ),
